@@ -306,8 +306,13 @@ pub fn op_writer(session: &mut Session, cmd: &J) -> Result<J, String> {
 			s["sink_len"] = json!(final_len);
 		}
 	}
+	// the graph the schema's own JSON text denotes (what a reader of the file will work with)
+	let json_nodes = match schema.schema.json().parse::<SchemaMut>() {
+		Ok(g) => crate::schema_io::schema_mut_to_json(&g),
+		Err(_) => J::Array(vec![]),
+	};
 	Ok(json!({"res": "ok", "build": build_res, "steps": out_steps, "sink": bytes_json(&sink.got),
-		"schema_json": bytes_json(schema.schema.json().as_bytes()),
+		"schema_json": bytes_json(schema.schema.json().as_bytes()), "schema_json_nodes": json_nodes,
 		"sink_calls": sink.calls, "vectored_calls": sink.vectored_calls, "plain_calls": sink.plain_calls,
 		"sink_log": sink.log.iter().map(|(v, o, k)| json!([*v as u8, o, k])).collect::<Vec<_>>()}))
 }
